@@ -1,9 +1,244 @@
-"""Operator-core (in-model) part shared by C01 and C05: theorems of coq/Properties/C01.v / C05.v and
-the model-vs-implementation correspondence of the printer.  `check_core(run, prop)` is called by
-lib/props/C01.py and lib/props/C05.py; it records its evidence under run.notes["in_model"].
-(stub: replaced by the builder of the Coq core)"""
+"""Operator-core (in-model) part shared by C01 and C05: re-checks the theorems of
+coq/Properties/C01.v / C05.v and runs, inside the Coq VM, the correspondence of the printer model
+(PrinterCore.pp vs Display, ptoks vs the crate's tokenizer on the printed text, the Lexer.v model on
+the model's text, the model's token round trip, content equality); evaluates the property itself on
+the implementation for the same inputs (print -> tokenize -> parse_expr again, same tree, printing
+idempotent; content tokens kept).  `check_core(run, prop)` is called by lib/props/C01.py and
+lib/props/C05.py and records its evidence under run.notes["in_model"]."""
+import json
+import os
+import re
+import time
+import common
+from common import *
+from props import C04
+import lexlib
+
+PKG = C04.PKG
+HEADER = ("Require Import SqlV.Base SqlV.PrecSpec SqlV.Pratt SqlV.PrinterCore "
+          "SqlVGen.PrecTables SqlVGen.DialectTables SqlVGen.PrinterTables.\nRequire SqlV.Lexer.\n")
+# prefix operators and their spelling, for the pair stream
+PREFIX = {"Plus": "+", "Minus": "-", "Tilde": "~", "AtSign": "@", "DoubleExclamationMark": "!!",
+          "PGSquareRoot": "|/", "PGCubeRoot": "||/"}
+CORE_KNOWN = {
+    "C01": {
+        "core:ilike-any-escape": "`a ILIKE ANY b ESCAPE 'c'` prints `ILIKE ANYb ESCAPE 'c'` (Display for Expr::ILike: \"ANY\" without the blank in the ESCAPE arm)",
+        "core:postfix-pair:!!": "PostgreSQL `a ! !` prints `a!!` which lexes as the prefix operator `!!`",
+    },
+    "C05": {
+        "core:like-escape-word": "`a LIKE b ESCAPE c` (unquoted word accepted by parse_literal_string) prints `ESCAPE 'c'`: the identifier becomes a string literal",
+    },
+}
+
+
+def gen_printer_tables(T):
+    """coq/gen/PrinterTables.v: what Display prints for the operator made from each token key."""
+    cases = []
+    for d in C04.DIALECTS:
+        for n, s in T["info"][d]["ops"].items():
+            cases.append({"dialect": d, "sql": "x1 IS NULL %s x2" % s, "key": n, "pre": False})
+        for n, s in C04.PREFIX_SPELL.items():
+            if n != "kw:NOT":
+                cases.append({"dialect": d, "sql": "%s x1" % s, "key": n, "pre": True})
+    res = run_bin(PKG, ["expr"], cases, pkg=PKG)
+    text = {d: {} for d in C04.DIALECTS}
+    for c, r in zip(cases, res):
+        rs = r["result"]
+        if "ok" not in rs or rs.get("rest") != 0:
+            continue
+        t = rs["text"]
+        if c["pre"]:
+            if rs["ok"]["k"] == "un" and t.endswith("x1"):
+                text[c["dialect"]].setdefault(c["key"], t[:-2])
+        else:
+            if rs["ok"]["k"] == "bin" and t.startswith("x1 IS NULL ") and t.endswith(" x2"):
+                text[c["dialect"]][c["key"]] = t[len("x1 IS NULL "):-3]
+    v = ["(* GENERATED on every run by lib/props/c01core.py from the running /repo crate: the text",
+         "   Display for BinaryOperator / UnaryOperator prints for the operator made from each token key. *)",
+         "Require Import SqlV.Base SqlV.PrecSpec."]
+    for d in C04.DIALECTS:
+        pairs = sorted((T["kid"][k], s) for k, s in text[d].items())
+        v.append("Definition optext_%s (k : N) : list N :=" % d)
+        for k, s in pairs:
+            v.append("  if k =? %d then %s else" % (k, coq_str(s)))
+        v.append("  [].")
+    write_if_changed(os.path.join(GEN, "PrinterTables.v"), "\n".join(v) + "\n")
+    return text
+
+
+def core_cases(run, T):
+    """The C04 expression stream (atoms renamed to x<n> / s<n>) plus all ordered pairs and triples of
+    prefix operators, postfix pairs, and LIKE-family variants with ANY / ESCAPE."""
+    rng = run.rng
+    cases = C04.gen_cases(run, T)
+    if run.tier != "thorough":
+        keep = {"single", "single-prefix", "pair", "interior", "paren", "chain", "triple"}
+        cases = [c for c in cases if c["stream"] in keep]
+    for c in cases:
+        c["sql"] = re.sub(r"\by(\d+)\b", lambda m: "x%d" % (60 + int(m.group(1))), c["sql"])
+    extra = []
+    for d in C04.DIALECTS:
+        pres = ["-", "+", "NOT"] + (["~", "@", "!!", "|/", "||/"] if T["flags"][d]["is_pg"] else [])
+        for a in pres:
+            for b in pres:
+                for tail in ("x1", "'s1'", "(x1)", "x1 :: INT", "x1 !"):
+                    extra.append({"dialect": d, "sql": "%s %s %s" % (a, b, tail), "stream": "prefix-pair"})
+                extra.append({"dialect": d, "sql": "x2 %s %s %s x1" % ("-", a, b), "stream": "prefix-pair"})
+                for c3 in pres:
+                    extra.append({"dialect": d, "sql": "%s %s %s x1" % (a, b, c3), "stream": "prefix-triple"})
+        for tail in ("x1 ! !", "x1 ! ! !", "x1 ! :: INT !", "x1 ! = x2", "x1 ! [x2]", "- x1 !", "x1 ! IS NULL"):
+            extra.append({"dialect": d, "sql": tail, "stream": "postfix-pair"})
+        for kw in ("LIKE", "ILIKE", "NOT LIKE", "NOT ILIKE", "SIMILAR TO"):
+            for anyk in ("", "ANY ") if "SIMILAR" not in kw else ("",):
+                for esc in ("", " ESCAPE 's1'", " ESCAPE x9"):
+                    extra.append({"dialect": d, "sql": "x1 %s %sx2%s" % (kw, anyk, esc), "stream": "like-forms"})
+                    extra.append({"dialect": d, "sql": "x1 %s %sx2%s AND x3" % (kw, anyk, esc), "stream": "like-forms"})
+        extra.append({"dialect": d, "sql": "x1 == x2 == x3", "stream": "spelling"})
+        extra.append({"dialect": d, "sql": "x1 != x2 <> x3", "stream": "spelling"})
+    seen, out = set(), []
+    for c in extra + cases:
+        k = (c["dialect"], c["sql"])
+        if k not in seen:
+            seen.add(k)
+            out.append(c)
+    return out
+
+
+def patterns(node, out):
+    """Known printer-defect patterns present in an implementation tree (keys of CORE_KNOWN + pairs)."""
+    if isinstance(node, dict):
+        k = node.get("k")
+        if k == "un" and node["op"] not in ("Not", "PGPostfixFactorial"):
+            ch = node["e"]
+            if isinstance(ch, dict) and ch.get("k") == "un" and ch["op"] not in ("Not", "PGPostfixFactorial"):
+                out.add("prefix-pair:%s%s" % (PREFIX[C04.UNOP_TOK[node["op"]]], PREFIX[C04.UNOP_TOK[ch["op"]]]))
+        if k == "un" and node["op"] == "PGPostfixFactorial":
+            ch = node["e"]
+            if isinstance(ch, dict) and ch.get("k") == "un" and ch["op"] == "PGPostfixFactorial":
+                out.add("postfix-pair:!!")
+        if k == "like" and node["kind"] == "ILike" and node["any"] and node["esc"] is not None:
+            out.add("ilike-any-escape")
+        for v in node.values():
+            patterns(v, out)
+    elif isinstance(node, list):
+        for v in node:
+            patterns(v, out)
+
+
+def content_of(view):
+    out = []
+    for t in view:
+        if t[0] == "atom":
+            out.append(("w", t[1]))
+        elif t[0] == "str":
+            out.append(("s", t[1]))
+        elif t[0] == "other":
+            out.append(("o", t[1]))
+    return sorted(out)
 
 
 def check_core(run, prop):
-    run.notes["in_model"] = {"status": "stub"}
-    return None
+    t0 = time.time()
+    note = {}
+    run.notes["in_model"] = note
+    T = C04.gen_tables(run)
+    lexlib.gen_dialect_tables()
+    gen_printer_tables(T)
+    pr = prove(prop)
+    run.cov["obligations"] = run.cov.get("obligations", 0) + pr["statements"]
+    run.cov["discharged"] = run.cov.get("discharged", 0) + (pr["statements"] if pr["ok"] else 0)
+    note["print_assumptions"] = {"closed_under_global_context": pr["closed"], "axioms": pr["axioms"]}
+    note["cone"] = pr["cone"]
+    if not pr["ok"]:
+        run.violation({"what": "a proof obligation of %s (operator core) no longer checks" % prop,
+                       "unchecked": failing_coq_item(pr["output"]), "forbidden": pr["forbidden"], "axioms": pr["axioms"]}, no_input=True)
+    coq_make(["theories/PrinterCore.vo", "gen/PrinterTables.vo", "gen/DialectTables.vo", "gen/PrecTables.vo"])
+
+    known = dict(known_findings(prop))
+    cases = core_cases(run, T)
+    res = run_bin_parallel(PKG, ["expr"], cases, pkg=PKG)
+    terms, idx = [], []
+    stats = {"cases": len(cases), "trees": 0, "in_fragment": 0, "impl_roundtrip_fail": 0, "content_fail": 0, "by_key": {}}
+    viol = {}
+
+    def report(key, rep, **kw):
+        full = "core:" + key
+        if full in known:
+            run.known(full, known[full])
+            stats["by_key"][full] = stats["by_key"].get(full, 0) + 1
+        else:
+            viol[key] = viol.get(key, 0) + 1
+            if viol[key] <= 10:
+                run.violation(dict(rep, key=full), **kw)
+
+    for i, (c, r) in enumerate(zip(cases, res)):
+        rs = r["result"]
+        if "ok" not in rs or r["tokens"] is None:
+            continue
+        stats["trees"] += 1
+        again = rs["again"]
+        d = c["dialect"]
+        pats = set()
+        patterns(rs["ok"], pats)
+        base = {"dialect": d, "input": c["sql"], "stream": c["stream"], "printed": rs["text"], "reparse": {k: again.get(k) for k in ("same", "err", "tokerr", "panic", "text2", "rest")}}
+        if prop == "C01":
+            good = again.get("same") is True and again.get("rest") == 0 and again.get("text2") == rs["text"]
+            if not good:
+                stats["impl_roundtrip_fail"] += 1
+                if pats:
+                    for p in sorted(pats):
+                        report(p, {"what": "the printed expression does not parse back to the same tree", **base})
+                else:
+                    report("unclassified", {"what": "the printed expression does not parse back to the same tree", **base})
+        else:
+            used = r["tokens"][:len(r["tokens"]) - rs["rest"]]
+            if "ptokens" in again and content_of(used) != content_of(again["ptokens"]):
+                stats["content_fail"] += 1
+                wordesc = any(t[0] == "kw" and t[1] == "ESCAPE" and j + 1 < len(used) and used[j + 1][0] == "atom" for j, t in enumerate(used))
+                report("like-escape-word" if wordesc else "unclassified",
+                       {"what": "content tokens of the input and of the printed text differ", "lost_or_invented": [content_of(used), content_of(again["ptokens"])], **base})
+        # model side
+        enc = C04.Enc(T, d)
+        try:
+            term, pos = enc.tree(r["tokens"], rs["ok"])
+        except (ValueError, KeyError):
+            continue
+        if "ptokens" not in again:
+            pt = "[TOther]"
+        else:
+            pt = enc.toks(again["ptokens"])
+        stats["in_fragment"] += 1
+        terms.append("(d_%s, optext_%s, dl_%s, %s, %s, %s)" % (d, d, d, term, coq_str(rs["text"]), pt))
+        idx.append(i)
+    fn = "(fun c => match c with (d, ot, ld, e, text, pt) => c01_case d ot ld std_uni e text pt end)"
+    typ = "(Pratt.dialect * (N -> list N) * Lexer.dialect * expr * list N * list PrecSpec.tok)"
+    codes = C04.run_coq_codes("c01core_" + prop.lower(), HEADER, terms, fn, typ, shard_size=1000)
+    bits = {1: "pp-vs-Display", 2: "printed-text-tokens", 4: "lexer-model-glue", 8: "model-token-roundtrip", 16: "content"}
+    relevant = (1, 2, 4, 8) if prop == "C01" else (1, 16)
+    cnt = {v: 0 for v in bits.values()}
+    for i, cd in zip(idx, codes):
+        c, r = cases[i], res[i]
+        rs = r["result"]
+        pats = set()
+        patterns(rs["ok"], pats)
+        for b in relevant:
+            if cd & b:
+                cnt[bits[b]] += 1
+                base = {"dialect": c["dialect"], "input": c["sql"], "printed": rs["text"], "failed": bits[b]}
+                if b in (2, 4) and pats:
+                    for p in sorted(pats):
+                        report(p, {"what": "the printed text does not lex to the canonical tokens of the tree (glue)", **base})
+                elif b == 16:
+                    report("like-escape-word", {"what": "content of the printed tokens differs from the content of the input (model)", **base})
+                elif b == 1:
+                    report("pp-model", {"what": "PrinterCore.pp and Display disagree", "unchecked": "correspondence PrinterCore.pp", **base}, no_input=True)
+                else:
+                    report("model:" + bits[b], {"what": "operator-core model check failed", "unchecked": bits[b], **base},
+                           no_input=(b == 8))
+    stats["model_checks_failed"] = cnt
+    stats["wall_s"] = round(time.time() - t0, 1)
+    note.update(stats)
+    run.add_eval(len(cases), stats["in_fragment"])
+    for c, r in list(zip(cases, res))[:2]:
+        run.sample({"core": c["sql"], "dialect": c["dialect"], "printed": r["result"].get("text")})
+    return stats
